@@ -42,10 +42,21 @@ func H_C10_sacramento_step() {
 	vsym.Assume(uztwc <= uztwm && uzfwc <= uzfwm && lztwc <= lztwm && lzfpc <= lzfpm && lzfsc <= lzfsm)
 	vsym.Assume(adimc >= uztwc && adimc <= uztwm+lztwm)
 	aet, ro, imp, surf, bf := rrOut(1), rrOut(1), rrOut(1), rrOut(1), rrOut(1)
-	sacramento(rrOne(rain), rrOne(pet), uztwc, uzfwc, lztwc, lzfpc, lzfsc, adimc,
+	a1, b1, c1, d1, e1, f1 := sacramento(rrOne(rain), rrOne(pet), uztwc, uzfwc, lztwc, lzfpc, lzfsc, adimc,
 		lzpk, lzsk, uzk, uztwm, uzfwm, lztwm, lzfsm, lzfpm, pfree, rexp, zperc, side, ssout, pctim, adimp, sarva, rserv,
 		uh[0], uh[1], uh[2], uh[3], uh[4], aet, ro, imp, surf, bf)
 	vsym.Reach("returned")
+	// every store stays between zero and its capacity, evapotranspiration and impervious runoff are
+	// non-negative (counterexample searches: the percolation code is beyond a proof in the time limit)
+	vsym.Hunt(a1 >= -rrAbs && a1 <= uztwm+rrAbs, "upper-tension-store-within-capacity")
+	vsym.Hunt(b1 >= -rrAbs && b1 <= uzfwm+rrAbs, "upper-free-store-within-capacity")
+	vsym.Hunt(c1 >= -rrAbs && c1 <= lztwm+rrAbs, "lower-tension-store-within-capacity")
+	vsym.Hunt(d1 >= -rrAbs && d1 <= lzfpm+rrAbs, "lower-primary-store-within-capacity")
+	vsym.Hunt(e1 >= -rrAbs && e1 <= lzfsm+rrAbs, "lower-supplemental-store-within-capacity")
+	vsym.Hunt(f1 >= -rrAbs, "additional-impervious-store-nonnegative")
+	// (evapotranspiration >= 0 is NOT asked from an arbitrary pre-state: with adimc below the
+	// upper tension content - a state the model does not reach by itself - the ADIMP term e5 is
+	// negative; the invariant that excludes it is not inductive in a form the solver can use)
 	vsym.AssertNear(ro.Get1(0), surf.Get1(0)+bf.Get1(0), rrAbs, rrRel, "runoff-is-surface-plus-baseflow")
 	vsym.Assert(ro.Get1(0) >= 0, "runoff-nonnegative")
 	vsym.Assert(bf.Get1(0) >= 0, "baseflow-nonnegative")
